@@ -1,4 +1,5 @@
 import NavisModel.Model.Ops
+import NavisModel.Model.Dist
 import NavisModel.Drv.Proto
 /-! Driver commands shared by the forest properties (`f.<cmd>`). Wire format of a table:
 blank-separated rows `id:parent:x:y:z:L` with `L ∈ {r,e,b,s}` (label optional). -/
@@ -31,6 +32,15 @@ def showTopo (t : Table) : String :=
   " ".intercalate (rows.map fun n => s!"{n.id}:{n.parent}:{showLabel n.label}")
 
 def b2s (b : Bool) : String := if b then "1" else "0"
+
+def showSegs (ss : List (List Int)) : String := ";".intercalate (ss.map showInts)
+
+def parseSegs (s : String) : Option (List (List Int)) :=
+  let s := trim s
+  if s.isEmpty then some [] else (s.splitOn ";").mapM intList?
+
+/-- canonical order for a *set* of segments -/
+def canonSegs (ss : List (List Int)) : List (List Int) := sortBy (fun y x => !lexLt x y) ss
 
 def parseOp (s : String) : Option Op :=
   match s.splitOn "=" with
@@ -105,6 +115,65 @@ def run (cmd rest : String) : Option String :=
     let t ← parseTable tb
     let c ← a.toInt?
     pure (showInts (rootPath t c))
+  | "geo" => do
+    -- "directed weighted limit|inf from|*" | table  → rows sorted by id, columns sorted by id
+    let (a, tb) ← split2 rest
+    let t ← parseTable tb
+    match words a with
+    | [d, w, lim, fr] => do
+      let limit ← if lim == "inf" then some none else lim.toNat?.map some
+      let allIds := sortedInts (ids t)
+      let rows ← if fr == "*" then some allIds else (intList? fr).map sortedInts
+      let len := if w == "1" then coordLen t else fun _ _ => 1
+      let m := geoMatrix t len (d == "1") limit rows allIds
+      pure (" ".intercalate ((rows.zip m).map fun (r, vs) =>
+        s!"{r}=" ++ ",".intercalate (vs.map fun v => match v with | some x => toString x | none => "inf")))
+    | _ => none
+  | "smallsegs" => do
+    let t ← parseTable rest
+    pure (showSegs (canonSegs (smallSegments t)))
+  | "segs" => do
+    -- "weighted" | table   (order is meaningful)
+    let (a, tb) ← split2 rest
+    let t ← parseTable tb
+    let len := if a == "1" then coordLen t else fun _ _ => 1
+    let ss := segments t len
+    pure (showSegs ss ++ " # " ++ ",".intercalate ((ss.map (pathLen len)).map toString))
+  | "segsok" => do
+    -- "weighted" | table | segs   → checker on the implementation's segments
+    match rest.splitOn "|" with
+    | [a, tb, sg] => do
+      let t ← parseTable tb
+      let segs ← parseSegs sg
+      let len := if trim a == "1" then coordLen t else fun _ _ => 1
+      pure (b2s (segmentsOKB t len segs))
+    | _ => none
+  | "smallsegsok" => do
+    match rest.splitOn "|" with
+    | [tb, sg] => do
+      let t ← parseTable tb
+      let segs ← parseSegs sg
+      pure (b2s (smallSegmentsOKB t segs))
+    | _ => none
+  | "cable" => do
+    let t ← parseTable rest
+    pure (toString (cable t (coordLen t)))
+  | "distroot" => do
+    let (a, tb) ← split2 rest
+    let t ← parseTable tb
+    let len := if a == "1" then coordLen t else fun _ _ => 1
+    pure (" ".intercalate ((sortedInts (ids t)).map fun i => s!"{i}={distToRoot t len i}"))
+  | "adj" => do
+    let t ← parseTable rest
+    let is := sortedInts (ids t)
+    pure (" ".intercalate (is.flatMap fun a => (is.filter fun b => adjacent t a b).map fun b => s!"{a}>{b}"))
+  | "sqlens" => do
+    -- child:squared-length pairs, to validate that every generated edge has an integer length
+    let t ← parseTable rest
+    pure (" ".intercalate ((t.filter fun n => !isRootNode n).map fun n =>
+      match find? t n.parent with
+      | some p => s!"{n.id}:{sqDist n p}:{isqrt (sqDist n p)}"
+      | none => s!"{n.id}:?"))
   | _ => none
 
 end Navis.Drv.Forest
